@@ -39,6 +39,8 @@ const (
 	OpUnlock
 	OpRLock
 	OpRUnlock
+	OpTryLock
+	OpTryRLock
 	OpChanSend
 	OpChanRecv
 	OpChanClose
@@ -103,6 +105,7 @@ type slot struct {
 	cond   func() bool
 	target int
 	result int
+	tryOK  bool
 	name   string
 	label  string // description of the pending op for traces
 }
@@ -202,6 +205,20 @@ func Point(label string) {
 	s := &slots[cur]
 	s.kind, s.label = OpYield, label
 	park(s)
+}
+
+// MutexTry announces a TryLock / TryRLock: always grantable; the answer is what the lock's state is at
+// the moment the scheduler lets the thread go on.
+//
+//go:norace
+func MutexTry(kind uint32, m *MutexModel, label string) bool {
+	if !active || aborting {
+		return true
+	}
+	s := &slots[cur]
+	s.kind, s.mu, s.label = kind, m, label
+	park(s)
+	return s.tryOK
 }
 
 // MutexPoint announces a lock operation and parks until it is granted.
@@ -571,7 +588,7 @@ func enabled(i int, allowQuiet bool) bool {
 		return false
 	}
 	switch s.kind {
-	case OpStart, OpYield, OpUnlock, OpRUnlock, OpChanClose:
+	case OpStart, OpYield, OpUnlock, OpRUnlock, OpChanClose, OpTryLock, OpTryRLock:
 		return true
 	case OpLock:
 		return !s.mu.W && s.mu.R == 0
@@ -654,6 +671,14 @@ func grant(i int) {
 		s.mu.R++
 	case OpRUnlock:
 		s.mu.R--
+	case OpTryLock:
+		if s.tryOK = !s.mu.W && s.mu.R == 0; s.tryOK {
+			s.mu.W = true
+		}
+	case OpTryRLock:
+		if s.tryOK = !s.mu.W; s.tryOK {
+			s.mu.R++
+		}
 	case OpChanClose:
 		p := chanPtr(s.ch)
 		if !isClosed(p) && nclosed < len(closedCh) {
